@@ -493,8 +493,28 @@ impl OtlpTransportBuilder {
                         let metrics = metrics.clone();
 
                         async move {
-                            let mut status = 0;
-                            let mut msg = String::new();
+                            let http_status = res.http_status();
+
+                            // A failed call may be answered with headers only; in that case
+                            // `grpc-status` and `grpc-message` arrive with the response head
+                            let mut status = res
+                                .header("grpc-status")
+                                .map(|v| v.parse().unwrap_or(0))
+                                .unwrap_or(0);
+                            let mut msg = res
+                                .header("grpc-message")
+                                .map(String::from)
+                                .unwrap_or_default();
+
+                            // A response that isn't 2xx doesn't come from the gRPC service itself
+                            // and won't carry a `grpc-status`; it's still a failed request
+                            if !(http_status >= 200 && http_status < 300) {
+                                metrics.grpc_batch_failed.increment();
+
+                                return Err(Error::msg(format_args!(
+                                    "OTLP gRPC server responded with HTTP status {http_status}"
+                                )));
+                            }
 
                             res.stream_payload(
                                 |_| {},
